@@ -154,7 +154,12 @@ func (u *Unit) intrinsic(fr *Frame, st *State, fn *ssa.Function, args []Val, whe
 	case "(*time.Timer).Stop":
 		u.event(fr, st, "call Timer.Stop", map[string]Val{"t": args[0]}, where)
 		return u.freshVal(types.Typ[types.Bool], "stopped", st.pc)
-	case "time.Now", "time.Since", "time.Until", "(time.Time).IsZero", "(time.Duration).Seconds":
+	case "time.Now":
+		// a reading of the clock: an event, so that contracts can say which reading a stored time is
+		res := u.freshResults(sig, "time", st.pc)
+		u.event(fr, st, "ret time.Now", map[string]Val{"result": res}, where)
+		return res
+	case "time.Since", "time.Until", "(time.Time).IsZero", "(time.Duration).Seconds":
 		return u.freshResults(sig, "time", st.pc)
 	case "time.Sleep":
 		u.event(fr, st, "call time.Sleep", map[string]Val{"d": args[0]}, where)
